@@ -254,6 +254,72 @@ def miniball_body(kind, name, quat):
     return body
 
 
+RANDOM_QUATS = [(F(1, 5), F(2, 5), F(2, 5), F(4, 5)), (F(1, 2), F(-1, 2), F(1, 2), F(1, 2)), (F(2, 7), F(3, 7), F(-6, 7), F(0))]
+
+
+def miniball_retry_body(kind, name, quat, nfail):
+    """Environment model of the wrapper's retry loop: the library's first ``nfail`` calls fail with LinAlgError (it does
+    so for cocircular / cospherical points, depending on its internal random pivoting) and rowan.random.rand returns
+    unit quaternions of the harness's choosing.  Whatever the environment does, the wrapper has to hand back the
+    smallest enclosing ball of the shape's own vertices."""
+    def body(H, V):
+        import contextlib
+        import coxeter.shapes as S
+
+        @contextlib.contextmanager
+        def environment():
+            if H.symbolic:
+                from symx import core
+
+                core.CTX.miniball_failures, core.CTX.miniball_calls = nfail, 0
+                core.CTX.random_quats, core.CTX.random_calls = RANDOM_QUATS, 0
+                try:
+                    yield
+                finally:
+                    core.CTX.miniball_failures, core.CTX.random_quats = 0, None
+            else:
+                import miniball
+                import numpy
+                import rowan
+
+                real_ball, real_rand = miniball.get_bounding_ball, rowan.random.rand
+                st = dict(ball=0, rand=0)
+
+                def ball(pts, *a, **k):
+                    st["ball"] += 1
+                    if st["ball"] <= nfail:
+                        raise numpy.linalg.LinAlgError("singular matrix (environment model)")
+                    return real_ball(pts, *a, **k)
+
+                def rand(*a):
+                    q = RANDOM_QUATS[st["rand"] % len(RANDOM_QUATS)]
+                    st["rand"] += 1
+                    return numpy.array([float(x) for x in q])
+
+                miniball.get_bounding_ball, rowan.random.rand = ball, rand
+                try:
+                    yield
+                finally:
+                    miniball.get_bounding_ball, rowan.random.rand = real_ball, real_rand
+
+        off = [F(3), F(-2), F(5)]
+        with environment():
+            if kind == "Polyhedron":
+                P = [[H.num(c) for c in p] for p in SH.place(SH.CONVEX[name], quat, 1, off)]
+                p = S.ConvexPolyhedron(H.arr(P))
+                ball = p.minimal_bounding_sphere
+            else:
+                P = [[H.num(c) for c in p] for p in SH.place([(x, y, 0) for x, y in SH.POLYGONS[name]], quat, 1, off)]
+                p = S.Polygon(H.arr(P), test_simple=False)
+                ball = p.minimal_bounding_circle
+        c, r = list(ball.centroid), ball.radius
+        d2 = [O.dot(O.sub(v, c), O.sub(v, c)) for v in P]
+        H.claim("minimal_bounding.retry.contains_all", H.and_(*[H.le(x, r * r) for x in d2]))
+        H.claim("minimal_bounding.retry.has_two_support_points", sum(1 for x in d2 if bool(H.eqb(x, r * r))) >= 2)
+
+    return body
+
+
 def curved_body(H, V):
     import coxeter.shapes as S
 
@@ -346,6 +412,12 @@ def obligations(tier, seed):
     for kind, nm, q in [("Polyhedron", "skew", "r1"), ("Polyhedron", "cube", "r2"), ("Polygon", "arrow", "r1"), ("Polygon", "L", "id")]:
         add("C13/minimal_bounding.%s.%s.%s" % (kind, nm, q), ["dummy"], miniball_body(kind, nm, q), first=dict(dummy=F(1)),
             bounds="%s %s concrete placement (rotation %s, offset (3,-2,5))" % (kind, nm, q), paths=2)
+    retry = [("Polyhedron", "cube", "r2", 1), ("Polyhedron", "cube", "r2", 2), ("Polygon", "L", "id", 1), ("Polygon", "L", "id", 2), ("Polygon", "arrow", "r1", 3)]
+    if tier == "thorough":
+        retry += [("Polyhedron", "skew", "r1", 2), ("Polyhedron", "skew", "r1", 3), ("Polygon", "arrow", "r1", 2), ("Polyhedron", "cube", "r2", 9), ("Polygon", "L", "id", 9)]
+    for kind, nm, q, nf in retry:
+        add("C13/minimal_bounding.retry%d.%s.%s.%s" % (nf, kind, nm, q), ["dummy"], miniball_retry_body(kind, nm, q, nf), first=dict(dummy=F(1)),
+            bounds="%s %s concrete placement (rotation %s, offset (3,-2,5)); environment: the first %d miniball calls raise LinAlgError, rowan.random.rand returns three fixed rational unit quaternions in turn" % (kind, nm, q, nf), paths=2)
     add("C13/curved", ["a", "b", "c", "tx", "ty", "tz"], curved_body, positive=["a", "b", "c"], first=dict(a=F(2), b=F(3), c=F(5), tx=F(1), ty=F(-2), tz=F(4)),
         bounds="semi-axes and centre free: 6 reals, all orderings", paths=(40 if tier == "quick" else 200))
     return obs
